@@ -3,9 +3,9 @@
 
 1. exhaustive TLC run of spec/MC_Fees_q (model of the current tree, DEVIATIONS = {}): the properties hold;
    guards: spec/MC_Fees_dev (the defect L11, fixed in 311e836, seeded into the model): InvBooked / InvSolvent
-   must be violated (the invariants can see it); spec/MC_Fees_avs (second AVS listed first): InvNoPanic must be
-   violated (lead L27 = known finding of C11 exists in the model of the current tree); spec/MC_Fees_acc (model
-   with the fix proposed for L27, second AVS before / after): every invariant holds;
+   must be violated (the invariants can see it); spec/MC_Fees_avs (the defect L27, fixed in 9ad8de4, seeded, second
+   AVS listed first): InvNoPanic must be violated; spec/MC_Fees_acc (current tree, second AVS before / after):
+   every invariant holds;
 2. behaviours by `tlc -simulate` of spec/MC_Fees_g / MC_Fees_gen.cfg;
 3. replay on the real code: one fresh ExocoreApp per behaviour, real blocks (harness `fees`);
 4. trace validation with spec/Trace_Fees (property lane C17_*, strict lane STRICT_*).
@@ -160,8 +160,8 @@ def _run(tier, seed, harness, d):
             raise vlib.Infra(f"{cfg}: model counterexample {m['violated']} ({what})\n" + m["out"][-3000:])
 
     guard("MC_Fees_dev.cfg", "defect L11 (fixed in 311e836) seeded into the model: the invariants must detect it", ["InvBooked", "InvSolvent"])
-    guard("MC_Fees_avs.cfg", "lead L27 on the current tree: second AVS listed first -> negative remainder panics", ["InvNoPanic"])
-    guard("MC_Fees_acc.cfg", "fix proposed for L27 (accumulate per staker): no panic, all invariants hold", [])
+    guard("MC_Fees_avs.cfg", "defect L27 (fixed in 9ad8de4) seeded into the model, second AVS listed first: negative remainder panics", ["InvNoPanic"])
+    guard("MC_Fees_acc.cfg", "current tree with a second AVS before / after the chain AVS: no panic, all invariants hold", [])
     # 2..4
     nbeh = 90 if tier == "quick" else 1200
     counts = collections.Counter()
@@ -193,7 +193,7 @@ def _run(tier, seed, harness, d):
     missing = [c for c in need if counts[c] == 0]
     if missing or counts["BeginBlock:dist"] + counts["BeginBlock:dist+mint"] == 0 or counts["BeginBlock:mint"] + counts["BeginBlock:dist+mint"] == 0:
         raise vlib.Infra(f"vacuous run: classes never executed: {missing} (event_counts={dict(counts)})")
-    res["leads_observed"] = {"L27_BeginBlock_panic_negative_coin_amount": counts["BeginBlock:PANIC"]}
+    res["block_phase_panics"] = counts["BeginBlock:PANIC"]
     res["deviation_steps_observed"] = dict(ndev)
     res["rule"] = ("behaviours = TLC -simulate runs of MC_Fees_g (world chosen by the Setup event), concretised with seed-chosen amount and power "
                    "scales and replayed on a fresh real app each; event_counts classify every executed step (which identifiers ended, "
